@@ -85,6 +85,7 @@ func (c config) String() string {
 type kase struct {
 	Cfg  config   `json:"cfg"`
 	Hist []string `json:"hist"`
+	Real bool     `json:"real_pool_layer,omitempty"`
 }
 
 type event struct {
@@ -667,7 +668,22 @@ func main() {
 	gx.Quiet()
 	r := ev.Start("C19", "fault_enumeration")
 	var c kase
-	if r.ReplayCase(&c) {
+	if r.ReplayCase(&c) && c.Real {
+		o := realReplay(c.Cfg, c.Hist, true)
+		for _, t := range o.trace {
+			fmt.Printf("%-34s -> %-22s %v\n", t.Ev, t.Resp, t.Led)
+		}
+		if o.res.Violation != "" {
+			r.Violation(ev.Witness{Summary: "real_pool," + c.Cfg.String() + " " + strings.Join(c.Hist, ",") + ": " + o.res.Violation, Features: o.res.Features, Case: c})
+		}
+		r.Set("evaluations", 1)
+		r.Set("rule", "replay of one recorded history on the real-pool layer")
+		r.Distinct("nontrivial", "replay")
+		r.Distinct("nontrivial", "replay2")
+		r.Sample(c)
+		r.Finish()
+	}
+	if c.Hist != nil {
 		o := replay(c.Cfg, c.Hist, true)
 		for _, t := range o.trace {
 			fmt.Printf("%-34s -> %-22s %v\n", t.Ev, t.Resp, t.Led)
@@ -797,6 +813,21 @@ func main() {
 			break
 		}
 	}
+	// the real-pool layer (see real.go)
+	rs, rt := runRealLayer(r, perCfg, func(cfg config, h []string, res xstate.Result) {
+		mu.Lock()
+		classes[sigOf(res.Features)]++
+		if _, ok := classEx[sigOf(res.Features)]; !ok {
+			classEx[sigOf(res.Features)] = "real_pool," + cfg.String() + " " + strings.Join(h, ",")
+		}
+		mu.Unlock()
+		k := kase{Cfg: cfg, Hist: append([]string(nil), h...), Real: true}
+		r.Violation(ev.Witness{Summary: "real_pool," + cfg.String() + " " + strings.Join(h, ",") + ": " + res.Violation, Features: res.Features, Case: k})
+	})
+	states += rs
+	transitions += rt
+	r.Set("real_pool_layer_states", rs)
+	r.Set("real_pool_layer_transitions", rt)
 	if len(classes) > 0 && (r.Violations() > 0 || os.Getenv("VERIF_VERBOSE") != "") {
 		fmt.Println("violation classes (count, features, first = shortest example):")
 		for _, k := range sessrig.SortedKeys(classes) {
@@ -804,9 +835,9 @@ func main() {
 		}
 	}
 	for _, s := range []kase{
-		{cfgs[0], []string{"BEGIN", "WS!slice-1/master#4=closed", "ROLLBACK", "DISC"}},
-		{cfgs[0], []string{"AC0", "W0", "COMMIT!slice-0/master#0=err", "QUIT"}},
-		{cfgs[1], []string{"W0", "BEGIN", "W1!slice-1/master#0=err", "DISC"}},
+		{Cfg: cfgs[0], Hist: []string{"BEGIN", "WS!slice-1/master#4=closed", "ROLLBACK", "DISC"}},
+		{Cfg: cfgs[0], Hist: []string{"AC0", "W0", "COMMIT!slice-0/master#0=err", "QUIT"}},
+		{Cfg: cfgs[1], Hist: []string{"W0", "BEGIN", "W1!slice-1/master#0=err", "DISC"}},
 	} {
 		o := replay(s.Cfg, s.Hist, true)
 		r.Sample(map[string]interface{}{"cfg": s.Cfg, "hist": s.Hist, "trace": o.trace, "violation": o.res.Violation})
